@@ -1,8 +1,9 @@
 (** Model of index/ctags.go: tagsToSections.Convert, overlaps, newLinesIndices, and of the
-    symbol-section acceptance test of ShardBuilder.Add (index/shard_builder.go).
+    symbol-section acceptance test of ShardBuilder.Add (index/shard_builder.go): sort, overlap test, past-the-end
+    test, and newSearchableString's rune-boundary test (UTF-8 decoding: Lib/Utf8.v).
     Offsets are uint32 in Go; the model uses nat and the theorems assume |content| < 2^32
     (the builder never passes larger documents: SizeMax). *)
-From ZV Require Import Lib.Base.
+From ZV Require Import Lib.Base Lib.Utf8.
 
 Record entry := { e_line : Z; e_name : list N; e_meta : N }.   (* e_meta: opaque tag of Kind/Parent/ParentKind *)
 Record section := { s_start : nat; s_end : nat }.
@@ -74,16 +75,61 @@ Fixpoint chain_ok (last_end : nat) (l : list section) : bool :=
   | [] => true
   | s :: r => (last_end <=? s_start s) && chain_ok (s_end s) r
   end.
-Definition add_accepts (content_len : nat) (secs : list section) : bool :=
-  let s := sort_secs secs in
-  match s with
+(** the overlap / past-the-end tests on the sorted sections *)
+Definition add_accepts_ranges (content_len : nat) (sorted : list section) : bool :=
+  match sorted with
   | [] => true
-  | x :: r => chain_ok (s_end x) r && (s_end (last s x) <=? content_len)
+  | x :: r => chain_ok (s_end x) r && (s_end (last sorted x) <=? content_len)
   end.
 
-(** ---- correspondence runner: a case is (content, tags, observed output of the Go Convert as
-    (start, end, name, meta) list, observed result of ShardBuilder.Add's acceptance) *)
-Definition c37case := (list N * list (Z * list N * N) * list (N * N * list N * N) * bool)%type.
+(** postingsBuilder.newSearchableString(content, sections): the flattened list Start1,End1,Start2,End2,... is
+    consumed from the front while the UTF-8 decoding loop (ASCII fast path = utf8.DecodeRune on ASCII) walks the
+    content: at every rune start (byteCount before the increment) all leading boundaries EQUAL to byteCount are
+    popped. After the loop a leading boundary < total length is the error "no rune for section boundary at byte N";
+    boundaries = total length are accepted (popped), anything else left over is silently ignored. *)
+Definition sec_boundaries (l : list section) : list nat := flat_map (fun s => [s_start s; s_end s]) l.
+Fixpoint pop_eq (pos : nat) (bs : list nat) : list nat :=
+  match bs with
+  | x :: r => if x =? pos then pop_eq pos r else bs
+  | [] => []
+  end.
+Definition nss_leftover (content : list N) (bs : list nat) : list nat :=
+  fold_left (fun bs pos => pop_eq pos bs) (rune_starts content) bs.
+(** verdict of newSearchableString on the section boundaries: 0 = accepted, 1 = the error above, 2 = run-time panic.
+    The panic: the popped boundaries (in the loop and, for those equal to the total length, after it) are paired up
+    into rune sections with runeSectionBoundaries[i], runeSectionBoundaries[i+1]; when a leftover boundary beyond
+    the total length (possible only for malformed sections with Start > End, which Add does not test) leaves an
+    odd number of popped ones, index i+1 is out of range. *)
+Definition nss_verdict (content : list N) (sorted : list section) : N :=
+  let bs := sec_boundaries sorted in
+  let rest := nss_leftover content bs in
+  if match rest with x :: _ => x <? length content | [] => false end then 1%N
+  else if Nat.even (length bs - length (pop_eq (length content) rest)) then 0%N else 2%N.
+
+(** ShardBuilder.Add's verdict on the symbol sections: 0 = no error, 1 = error returned, 2 = panic *)
+Definition add_verdict (content : list N) (secs : list section) : N :=
+  let s := sort_secs secs in
+  if add_accepts_ranges (length content) s then nss_verdict content s else 1%N.
+Definition add_accepts (content : list N) (secs : list section) : bool := N.eqb (add_verdict content secs) 0.
+
+(** ---- correspondence runner. Case kinds:
+    CConv: (content, tags, observed output of the Go Convert as (start, end, name, meta) list, observed verdict of
+           ShardBuilder.Add on that output: 0 accepted / 1 error / 2 panic);
+    CAdd : (content, arbitrary sections (start, end), observed verdict of ShardBuilder.Add) — exercises the sort,
+           overlap, past-the-end and rune-boundary tests on inputs Convert never produces;
+    CUtf8: (bytes, Go's (rune, width) sequence from the utf8.DecodeRune loop, utf8.Valid, utf8.RuneCount,
+           []byte(string([]rune(string(bytes)))));
+    CUtf8Row: (prefix, runs): Go's DecodeRune-loop result on prefix ++ [b] for EVERY last byte b = 0..255, run-length
+           compressed: a run (lo, hi, items) says that for lo <= b <= hi the result is the (rune, width) sequence
+           [(r + slope * (b - lo), w) | (r, slope, w) in items]; the runs must tile 0..255 (the Go side re-expands its
+           runs and compares them with what it observed before emitting them);
+    CEnc : (rune >= 0, utf8.AppendRune(nil, rune)). *)
+Inductive c37case :=
+| CConv (content : list N) (tags : list (Z * list N * N)) (out : list (N * N * list N * N)) (verdict : N)
+| CAdd (content : list N) (secs : list (N * N)) (verdict : N)
+| CUtf8 (s : list N) (decoded : list (N * N)) (valid : bool) (count : N) (reenc : list N)
+| CUtf8Row (prefix : list N) (runs : list (N * N * list (N * N * N)))
+| CEnc (r : N) (enc : list N).
 
 Definition mk_entry (t : Z * list N * N) : entry :=
   let '(l, n, m) := t in {| e_line := l; e_name := n; e_meta := m |}.
@@ -92,9 +138,32 @@ Definition out_row (p : section * entry) : N * N * list N * N :=
 Definition row_eqb (a b : N * N * list N * N) : bool :=
   let '(a1, a2, a3, a4) := a in let '(b1, b2, b3, b4) := b in
   N.eqb a1 b1 && N.eqb a2 b2 && list_eqb N.eqb a3 b3 && N.eqb a4 b4.
+Definition mk_sec (p : N * N) : section := {| s_start := N.to_nat (fst p); s_end := N.to_nat (snd p) |}.
+Definition rw_eqb (a b : N * N) : bool := N.eqb (fst a) (fst b) && N.eqb (snd a) (snd b).
+Definition rw_N (a : N * nat) : N * N := (fst a, N.of_nat (snd a)).
+Definition N_range (lo hi : N) : list N := map N.of_nat (seq (N.to_nat lo) (N.to_nat hi + 1 - N.to_nat lo)).
+Definition run_ok (prefix : list N) (run : N * N * list (N * N * N)) : bool :=
+  let '(lo, hi, items) := run in
+  forallb (fun b => list_eqb rw_eqb (map rw_N (decode_all (prefix ++ [b])))
+                                    (map (fun it => let '(r, sl, w) := it in (r + sl * (b - lo), w)%N) items))
+          (N_range lo hi).
+Fixpoint runs_tile (next : N) (runs : list (N * N * list (N * N * N))) : bool :=
+  match runs with
+  | [] => N.eqb next 256
+  | (lo, hi, _) :: r => N.eqb lo next && N.leb lo hi && runs_tile (hi + 1)%N r
+  end.
+
 Definition c37_ok (c : c37case) : bool :=
-  let '(content, tags, out, accepted) := c in
-  let m := convert content (map mk_entry tags) in
-  list_eqb row_eqb (map out_row m) out &&
-  Bool.eqb (add_accepts (length content) (map fst m)) accepted.
+  match c with
+  | CConv content tags out verdict =>
+      let m := convert content (map mk_entry tags) in
+      list_eqb row_eqb (map out_row m) out &&
+      N.eqb (add_verdict content (map fst m)) verdict
+  | CAdd content secs verdict => N.eqb (add_verdict content (map mk_sec secs)) verdict
+  | CUtf8 s decoded valid count reenc =>
+      list_eqb rw_eqb (map rw_N (decode_all s)) decoded && Bool.eqb (valid_utf8 s) valid &&
+      N.eqb (N.of_nat (rune_count s)) count && list_eqb N.eqb (encode_all (runes s)) reenc
+  | CUtf8Row prefix runs => runs_tile 0 runs && forallb (run_ok prefix) runs
+  | CEnc r enc => list_eqb N.eqb (encode_rune r) enc
+  end.
 Definition c37_mismatches (cs : list c37case) : list N := bad_indexes c37_ok cs.
